@@ -347,6 +347,22 @@ def run(ctx):
                     ctx.dist['messages-compression-flipped'] += 1
             except Exception as e:
                 ctx.dist['compression-flip-not-possible'] += 1
+    # crafted compressed messages whose REDUCED columns have shapes the full columns do not have: the smallest selected
+    # subset is missing while every other selected one holds 0 / 0.0 / the same value, a missing entry next to equal ones
+    import bufrlib as B2
+    for nm, ids, rows in [
+            ('missing-then-zeros', [1001, 1002, 20011, 11002, 12101],
+             [[5, 7, 3, 2.5, 280.5], [None, None, None, None, None], [0, 0, 0, 0.0, 0.0], [0, 0, 0, 0.0, 0.0]]),
+            ('missing-then-equal', [1001, 20003, 12101, 10004],
+             [[1, 2, 270.0, 99000.0], [None, None, None, None], [9, 6, 285.25, 101300.0], [9, 6, 285.25, 101300.0], [3, 1, 260.0, 98000.0]]),
+            ('zeros-then-missing', [1001, 20011, 12101],
+             [[4, 5, 290.0], [0, 0, 0.0], [0, 0, 0.0], [None, None, None]])]:
+        for comp in (True, False):
+            try:
+                b = B2.encode_message(ids, rows, compressed=comp).serialized_bytes
+                derived.append(('crafted:%s:%s' % (nm, 'compressed' if comp else 'uncompressed'), Decoder().process(b, wire_template_data=False)))
+            except Exception as e:
+                ctx.notes.append('crafted message %s not built: %r' % (nm, e))
     k_rand = ctx.n(25, 120)
     for label, msg in msgs + derived:
         n = msg.n_subsets.value
@@ -362,6 +378,8 @@ def run(ctx):
         cols = index_collections(rng, n, k_rand)
         if n <= 8:
             cols += [[i] for i in range(n) if [i] not in cols]
+        if label.startswith('crafted:'):
+            cols += [c for c in ([1, 2, 3], [1, 2], [2, 1, 1], [1, 3], [0, 2, 3], [2, 3], [1, 2, 3, 4][:n], [3, 2, 1]) if max(c) < n and c not in cols]
         check_message(ctx, msg, label, cols, reencode=reencode)
 
     # --- the CLI path (command_subset) on one file ---------------------------------
